@@ -244,7 +244,7 @@ func checkBilinear(c pairCase, r *h.Rec) error {
 }
 
 func TestC09_Bilinear(t *testing.T) {
-	h.Prop(t, h.P{Name: "bilinear", Quick: 200, Thorough: 3000, Journal: true}, genPair, checkBilinear)
+	h.Prop(t, h.P{Name: "bilinear", Quick: 200, Thorough: 2000, Journal: true}, genPair, checkBilinear)
 }
 
 // ---------------------------------------------------------------- additivity, inverses
@@ -336,7 +336,7 @@ func checkPairAdd(c pairAddCase, r *h.Rec) error {
 }
 
 func TestC09_PairAdditive(t *testing.T) {
-	h.Prop(t, h.P{Name: "pair-additive", Quick: 100, Thorough: 1600, Journal: true}, genPairAdd, checkPairAdd)
+	h.Prop(t, h.P{Name: "pair-additive", Quick: 100, Thorough: 1200, Journal: true}, genPairAdd, checkPairAdd)
 }
 
 // ---------------------------------------------------------------- GT exponent laws
@@ -472,7 +472,7 @@ func checkGT(c gtCase, r *h.Rec) error {
 }
 
 func TestC09_GTLaws(t *testing.T) {
-	h.Prop(t, h.P{Name: "gt-laws", Quick: 100, Thorough: 2000, Journal: true}, genGT, checkGT)
+	h.Prop(t, h.P{Name: "gt-laws", Quick: 100, Thorough: 1500, Journal: true}, genGT, checkGT)
 }
 
 // ---------------------------------------------------------------- GT single-window sweeps
